@@ -1400,6 +1400,17 @@ class FuncAnalysis:
                     return
                 if fn.attr in ("add",) and recv.kind == "unknown":
                     return
+                if recv.kind == "obj" and recv.cls:
+                    # a method of a package class that only adds to sets (a small collector object): the same as
+                    # D[k].add(v) - the content does not depend on the order of the calls
+                    kls = next((c_ for (r_, q_), c_ in self.sm.classes.items() if q_ == recv.cls), None)
+                    meth = kls.methods.get(fn.attr) if kls is not None else None
+                    if meth is not None:
+                        body_ = [x for x in meth.node.body if not (isinstance(x, ast.Expr) and isinstance(x.value, ast.Constant))]
+                        if body_ and all(isinstance(x, ast.Expr) and isinstance(x.value, ast.Call) and isinstance(x.value.func, ast.Attribute) and x.value.func.attr in ("add", "update", "discard") for x in body_):
+                            if rootname:
+                                self.taint_name(rootname, self.cur_loop_taint())
+                            return
             if isinstance(fn, ast.Name) and fn.id in ("print",):
                 return
             d = dotted(fn) or norm(fn)
